@@ -46,6 +46,14 @@ func InstallMemNet() {
 			}
 			netMu.RLock()
 			_, ok := netHosts[host]
+			if !ok {
+				// hosts registered with an explicit port (two providers on one host), possibly with a query selector
+				for k := range netHosts {
+					if k == addr || strings.HasPrefix(k, addr+"?") || strings.HasPrefix(k, host+"?") {
+						ok = true
+					}
+				}
+			}
 			netMu.RUnlock()
 			if !ok {
 				return nil, fmt.Errorf("memnet: connection refused to %s", addr)
@@ -59,7 +67,14 @@ func InstallMemNet() {
 				host = h
 			}
 			netMu.RLock()
-			h := netHosts[host]
+			// most specific registration first: host:port?query, host?query, host:port, host
+			var h http.Handler
+			for _, k := range []string{r.Host + "?" + r.URL.RawQuery, host + "?" + r.URL.RawQuery, r.Host, host} {
+				if hh, ok := netHosts[k]; ok {
+					h = hh
+					break
+				}
+			}
 			netMu.RUnlock()
 			if h == nil {
 				http.Error(w, "no such host", http.StatusBadGateway)
@@ -93,8 +108,12 @@ func (p *SimIdP) ServeHTTP(w http.ResponseWriter, r *http.Request) {
 	switch {
 	case strings.HasSuffix(r.URL.Path, "/.well-known/openid-configuration"):
 		base := "http://" + r.Host
-		doc := map[string]any{"issuer": p.Issuer, "authorization_endpoint": base + "/auth", "token_endpoint": base + "/token",
-			"jwks_uri": base + "/jwks", "end_session_endpoint": base + "/logout"}
+		q := ""
+		if r.URL.RawQuery != "" {
+			q = "?" + r.URL.RawQuery // a provider that publishes one document per policy: its endpoints carry the selector too
+		}
+		doc := map[string]any{"issuer": p.Issuer, "authorization_endpoint": base + "/auth" + q, "token_endpoint": base + "/token" + q,
+			"jwks_uri": base + "/jwks" + q, "end_session_endpoint": base + "/logout" + q}
 		p.DiscoveryHits++
 		w.Header().Set("Content-Type", "application/json")
 		_ = json.NewEncoder(w).Encode(doc)
@@ -142,6 +161,9 @@ type FilterSpec struct {
 	ViaOverride  bool   `json:"via_override,omitempty"` // written as oidc_override over a default_oidc_config (shared id_token/logout/scopes)
 	TokenLife    int    `json:"token_life,omitempty"`   // seconds the realm's tokens live (default 3600; real clock)
 	// MocksBefore / MocksAfter: mock filters (allow flags) in the chain before / after the OIDC filter
+	Callback      string `json:"callback,omitempty"`       // callback URI (default https://app.test/<name>/callback)
+	ChainName     string `json:"chain_name,omitempty"`     // name of the chain (default: Name); chain names need not be unique
+	Key           *Key   `json:"-"`                        // signing key of the realm (default: the harness's EC key)
 	RedisPassword string `json:"redis_password,omitempty"` // the Redis server requires this password; it is part of server_uri
 	MocksBefore []bool `json:"mocks_before,omitempty"`
 	MocksAfter  []bool `json:"mocks_after,omitempty"`
@@ -173,27 +195,37 @@ func NewSWorld(filters []FilterSpec, extra map[string]any) (*SWorld, error) {
 	doc := map[string]any{"listen_address": "127.0.0.1", "listen_port": 10003, "log_level": "error"}
 	var chains []any
 	for _, f := range filters {
-		host := fmt.Sprintf("w%d-%s", n, f.Realm)
+		// a realm is "host", "host:port" or either followed by "?selector" (one provider host serving one discovery
+		// document per selector)
+		realmHost, selector, _ := strings.Cut(f.Realm, "?")
+		host := fmt.Sprintf("w%d-%s", n, realmHost)
+		sel := ""
+		if selector != "" {
+			sel = "?" + selector
+		}
 		if _, ok := sw.Realms[f.Realm]; !ok {
-			idp := NewSimIdP(time.Now, f.ClientID, nil, "https://app.test/"+f.Name+"/callback")
+			idp := NewSimIdP(time.Now, f.ClientID, nil, CallbackOf(f))
 			secret := f.Secret
 			idp.Secret = func() string { return secret }
 			idp.Issuer = "http://" + host
-			idp.TokenURL = "http://" + host + "/token"
+			idp.TokenURL = "http://" + host + "/token" + sel
 			idp.TokenLife = 3600
 			if f.TokenLife > 0 {
 				idp.TokenLife = f.TokenLife
 			}
+			if f.Key != nil {
+				idp.Key = f.Key
+			}
 			sw.Realms[f.Realm] = idp
-			RegisterHost(host, idp)
-			sw.hosts = append(sw.hosts, host)
+			RegisterHost(host+sel, idp)
+			sw.hosts = append(sw.hosts, host+sel)
 		}
 		o := map[string]any{
-			"callback_uri": "https://app.test/" + f.Name + "/callback", "client_id": f.ClientID, "client_secret": f.Secret,
+			"callback_uri": CallbackOf(f), "client_id": f.ClientID, "client_secret": f.Secret,
 			"id_token": map[string]any{"header": "authorization", "preamble": "Bearer"}, "scopes": []any{},
 		}
 		if f.Discovery {
-			o["configuration_uri"] = "http://" + host + "/.well-known/openid-configuration"
+			o["configuration_uri"] = "http://" + host + "/.well-known/openid-configuration" + sel
 		} else {
 			o["authorization_uri"] = "http://" + host + "/auth"
 			o["token_uri"] = "http://" + host + "/token"
@@ -262,7 +294,11 @@ func NewSWorld(filters []FilterSpec, extra map[string]any) (*SWorld, error) {
 		for _, al := range f.MocksAfter {
 			fl = append(fl, map[string]any{"mock": map[string]any{"allow": al}})
 		}
-		chains = append(chains, map[string]any{"name": f.Name, "match": map[string]any{"header": "x-tenant", "equality": f.Name}, "filters": fl})
+		chainName := f.Name
+		if f.ChainName != "" {
+			chainName = f.ChainName
+		}
+		chains = append(chains, map[string]any{"name": chainName, "match": map[string]any{"header": "x-tenant", "equality": f.Name}, "filters": fl})
 	}
 	doc["chains"] = chains
 	for k, v := range extra {
@@ -319,7 +355,7 @@ func NewSWorldOnConfig(cfg *configv1.Config, filters []FilterSpec) (*SWorld, err
 	for i, f := range filters {
 		host := fmt.Sprintf("w%d-%s", n, f.Realm)
 		if _, ok := sw.Realms[f.Realm]; !ok {
-			idp := NewSimIdP(time.Now, f.ClientID, nil, "https://app.test/"+f.Name+"/callback")
+			idp := NewSimIdP(time.Now, f.ClientID, nil, CallbackOf(f))
 			secret := f.Secret
 			idp.Secret = func() string { return secret }
 			idp.Issuer = "http://" + host
@@ -334,7 +370,7 @@ func NewSWorldOnConfig(cfg *configv1.Config, filters []FilterSpec) (*SWorld, err
 		ch.Match = &configv1.Match{Header: "x-tenant", Criteria: &configv1.Match_Equality{Equality: f.Name}}
 		o := ch.Filters[0].GetOidc()
 		o.AuthorizationUri, o.TokenUri = "http://"+host+"/auth", "http://"+host+"/token"
-		o.CallbackUri = "https://app.test/" + f.Name + "/callback"
+		o.CallbackUri = CallbackOf(f)
 	}
 	sw.Cfg = cfg
 	ctx, cancel := context.WithCancel(context.Background())
@@ -360,6 +396,23 @@ func (sw *SWorld) LastTokenAuthorization(realm string) string {
 		return ""
 	}
 	return idp.TokenReqs[len(idp.TokenReqs)-1].Header.Get("Authorization")
+}
+
+// CallbackOf is the callback URI of a filter (its own path by default; Callback overrides it, e.g. to give two chains
+// the one redirect URI registered at the provider).
+func CallbackOf(f FilterSpec) string {
+	if f.Callback != "" {
+		return f.Callback
+	}
+	return "https://app.test/" + f.Name + "/callback"
+}
+
+// HasIssued reports whether this provider issued the token.
+func (p *SimIdP) HasIssued(tok string) bool {
+	p.mu.Lock()
+	defer p.mu.Unlock()
+	_, ok := p.Issued[tok]
+	return ok
 }
 
 // TokenRequests is the number of token requests that reached a realm.
@@ -469,7 +522,7 @@ func (sw *SWorld) Login(f FilterSpec) (sid, cookieName string, err error) {
 	idp := sw.Realms[f.Realm]
 	idp.mu.Lock()
 	idp.ClientID = f.ClientID
-	idp.RedirectURI = "https://app.test/" + f.Name + "/callback"
+	idp.RedirectURI = CallbackOf(f)
 	cb, _, aerr := idp.Authorize(r1.Location)
 	idp.mu.Unlock()
 	if aerr != nil {
